@@ -68,7 +68,8 @@ def run(chk):
         hp = positional_params(hh.fn)
         for p in paths_of(hh.fn):
             if p.end[0] == "return":
-                ok = U(p.end[1]) == f"QTensorLinear.apply({hp[1]}, {hp[2]}, {hp[3]})"
+                from .c07 import dispatch_args_ok
+                ok = dispatch_args_ok(p.end[1], hp)
                 chk.require("C11.R5", f"{hh.mi.rel}:{p.end[2]}", ok, f"linear dispatch: `{U(p.end[1])}`", hh.name, "linear dispatch arguments", "any quantized linear: gradients land on the wrong tensors")
     chk.assume("autograd calls Function.backward with one gradient per forward output and expects one result per forward input")
 
